@@ -125,7 +125,7 @@ def scenario(ctx, p):
         rng = {n: ctx.int(n) for n in ("src_start", "src_end", "dst_start", "dst_end")}
         ctx.assume(rng["dst_start"] >= 1)
         ctx.assume(rng["dst_end"] <= 6)
-        direction = ctx.choose("direction", ["left_to_right", "right_to_left", "up", None])
+        direction = ctx.choose("direction", ["left_to_right", "right_to_left", "up", None] if p["nex"] < 2 else ["right_to_left"])
         exk = ctx.choose("excl", ["none", "list"]) if p["nex"] == 0 else "list"
         ex = None if exk == "none" else [ctx.int(f"ex{i}") for i in range(p["nex"])]
         c["badex"] = None
@@ -135,7 +135,7 @@ def scenario(ctx, p):
             ctx.assume(rng["dst_end"] >= 3)
             ex[0] = 2.5
             c["badex"] = 2.5
-        md = ctx.choose("multi_disp", [1, 3])
+        md = ctx.choose("multi_disp", [1, 3] if p["nex"] < 2 else [3])
         reuse = ctx.int("diti_reuse")
         c.update(wl=wl, a=a, vol=vol, rng=rng, direction=direction, ex=ex, md=md, reuse=reuse, m=m)
         wl.reagent_distribution(a["src_rack_label"], rng["src_start"], rng["src_end"], a["dst_rack_label"], rng["dst_start"], rng["dst_end"], volume=vol,
